@@ -190,6 +190,13 @@ func (ex *Exec) callIntrinsic(fr *frame, pos token.Pos, fn *ssa.Function, args [
 		}
 		ex.draws = append(ex.draws, Draw{Op: "choose", Label: label, N: n, pick: c})
 		return b.I64(int64(c))
+	case "Tag":
+		label := ex.labelOf(args[0])
+		if ex.Fixed != nil {
+			ex.fixedDraw("tag")
+		}
+		ex.draws = append(ex.draws, Draw{Op: "tag", Label: label, V: ex.labelOf(args[1])})
+		return nil
 	case "Assume":
 		c := args[0].(*smt.Term)
 		ex.Assumes[ex.site(fr, pos)]++
